@@ -34,9 +34,18 @@ __CPROVER_requires(RXV_IN_SP(src, 4))
 __CPROVER_ensures(__CPROVER_return_value == __CPROVER_uninterpreted_mem32(__CPROVER_POINTER_OFFSET(src)))
 __CPROVER_assigns();
 
+#ifdef RXV_STORE64_ANY_OBJECT
+/* variant for callers that also store into ordinary objects (the VM's register file at the end of execute): a scratchpad
+   store must lie inside the extent, any other store must be a valid 8-byte write and is in the frame */
+static void store64(void* dst, uint64_t w)
+__CPROVER_requires(__CPROVER_same_object(dst, rxv_sp) ? RXV_IN_SP(dst, 8) : __CPROVER_w_ok(dst, 8))
+__CPROVER_ensures(1)
+__CPROVER_assigns(!__CPROVER_same_object(dst, rxv_sp): __CPROVER_object_upto(dst, 8));
+#else
 static void store64(void* dst, uint64_t w)
 __CPROVER_requires(RXV_IN_SP(dst, 8))
 __CPROVER_ensures(rxv_store_count == __CPROVER_old(rxv_store_count) + 1)
 __CPROVER_ensures(rxv_store_off == __CPROVER_POINTER_OFFSET(dst) && rxv_store_val == w)
 __CPROVER_assigns(rxv_store_count, rxv_store_off, rxv_store_val);
+#endif
 #endif
